@@ -10,6 +10,38 @@ TRUST = ("Trusted: Coq 8.16.1 kernel (no axioms: every theorem is checked to pri
          "modelled-not-verified parts listed in DESIGN.md section 3.2 and 7.")
 
 CHECKS = {
+    "C01": dict(
+        technique="Coq proof (piece program as interaction tree: only good operations for EVERY read answer/op result; byte invariant for any order of set_len/writes; lifted to the FS model) + trace validation of real runs against the extracted model + write-log oracle",
+        text="C01_piece_issues_only_good_ops holds for every answer the environment can give (hence every interleaving, candidate/decoy combination and prior export state), C01_accepted_traces_are_good links validated traces to it, C01_fs_bytes_sound gives 'old byte / zero of extension / torrent byte' for every inode. Each of 260 (2500 thorough) generated runs of the real start() is replayed event by event against the extracted programs, index, work list and FS model, and checked by an independent byte-provenance oracle.",
+        ref="DESIGN.md section 5 C01", note="Hypothesis cr (collision-freeness at the touched points) and wf_piece (from the layout, C06) are explicit premises."),
+    "C03": dict(
+        technique="Coq proof (every mutating op targets an entry's export path or its parent; table paths confined to export/<hex>/Data; open modes from Generated.v) + whole-sandbox snapshot oracle + trace validation",
+        text="C03_targets_confined, C03_open_modes (re-extracted flags), C03_resize_ops_on_targets, C03_unnamed_inodes_unchanged and the plain-name clause of the loader; tied to the code by before/after snapshots of the whole sandbox, every open mode in the fs-shim log, scan directories overlapping/containing the export directory, and trace validation.",
+        ref="DESIGN.md section 5 C03", note="Lexical confinement: assumes no symbolic link inside an export subtree."),
+    "C11": dict(
+        technique="Coq proof (cut-off traces of good programs are good, byte invariant under any prefix incl. cut writes, verified ranges survive) + crash injection at every mutating operation with re-run",
+        text="C11_cut_traces_are_good, C11_interrupted_bytes_sound, C11_verified_ranges_survive; the fs shim cuts the process at the k-th file operation (writes after 0/1/len-1 bytes), the interrupted tree is checked byte for byte and replayed as a cut-off trace of the model, and a clean re-run must recover everything that was available.",
+        ref="DESIGN.md section 5 C11", note="Crash = process kill (kernel state survives); power loss is outside the statement."),
+    "C12": dict(
+        technique="Coq proof (target shape, SetLen = declared length, padding never in a mutating op, disjoint subtrees via hex injectivity) + export-tree listing oracle + trace validation",
+        text="C12_single/multi_file_location, C12_dir_name_length, C12_only_targets_declared_length, C12_subtrees_disjoint; tied to the code by the tree listing after each generated run and trace validation.",
+        ref="DESIGN.md section 5 C12"),
+    "C13": dict(
+        technique="Coq proof (unconditional structural facts: an error answer leads to Ret Fault after releasing the lock; lock discipline; goodness for error answers) + fault injection at every file operation (singles and pairs)",
+        text="C13_fault_ends_the_piece and C13_no_lock_leaked hold for every piece with no hypothesis; C13_ops_before_fault_good; the fs shim fails the k-th operation (open, fstat, read, create_dir_all, set_len, seek, write; pairs too) and each faulty run is replayed against the model and checked for confinement, counters and byte correctness.",
+        ref="DESIGN.md section 5 C13"),
+    "C14": dict(
+        technique="Coq proof (prelude program evaluated against an arbitrary probe-answer function: abort with no mutation on any over-long file; exactly the shorter files extended to the declared length; no mutation without the flag) + pre-flight oracle + prelude trace validation",
+        text="C14_overlong_aborts_before_any_change (any position), C14_extends_exactly_the_shorter_files, C14_no_flag_no_prelude_change, open modes from Generated.v; tied to fix_export_file_lengths by runs over random per-file export states with the flag on and off.",
+        ref="DESIGN.md section 5 C14", note="A directory sitting at an export path is outside the modelled fragment."),
+    "C15": dict(
+        technique="Coq proof (counter arithmetic, one line per piece, success only through good traces) + stdout progress-line oracle + trace validation",
+        text="C15_counters_sum, C15_one_line_per_piece, C15_success_only_via_good_trace; the progress lines of each real run are parsed and compared with the piece count of the distinct torrents, the per-piece outcomes and the export tree afterwards (duplicate / permuted torrent lists included).",
+        ref="DESIGN.md section 5 C15", note="'Every piece evaluated exactly once' is C05; 'available => succeeded' relies on C02 (checked by oracle here)."),
+    "C16": dict(
+        technique="Coq proof (bad path in any position => Fault with no mutating op; no piece program panics; loader total) + child-process runs (bad paths, no/unloadable torrents, degenerate torrents, CLI binary)",
+        text="Partial: C16_bad_path_no_effect, C16_piece_never_panics, C16_load_total are theorems of the model; allocation failure is runtime (known finding K2). Bad paths of every kind in every position, runs without loadable torrents, degenerate loadable torrents and the CLI binary are exercised as child processes.",
+        ref="DESIGN.md section 5 C16", note="Allocation failure and thread panics at join are runtime."),
     "C06": dict(
         technique="Coq proof (induction over the cursor loop, closed-form interval spec) + differential run of the extracted model against Pieces::from_torrent",
         text="Theorems C06_layout_multi / C06_layout_single / C06_hash_count and the partition theorems hold for all file-length vectors and piece lengths with u64 checks explicit; the model is tied to pieces.rs by an exhaustive small-vector and u64-boundary differential run with an independent interval oracle.",
